@@ -1,5 +1,6 @@
 import Cdecao.Model.Cdedb
 import Cdecao.Reader.Spec
+import Cdecao.Proofs.ReaderProofs
 /-! # C12 — the problem built from a CdE export is exactly what the export says
 
 `CD.read` models io::cdedb::read from the JSON value on. `RD.read` is the registration loop on a
@@ -47,4 +48,217 @@ theorem C12_refuse_version (data : J) (o : Opts) (a b : Nat)
 theorem C12_defaults : Const.DEFAULT_MIN_SIZE = 0 ∧ Const.DEFAULT_MAX_SIZE = 25 ∧ Const.STATUS_PARTICIPANT = 2 := by
   decide
 
+/-! ## refusals of `findTrack` (proofs in `Cdecao/Proofs/ReaderProofs.lean`, section 5)
+
+`CD.eventParts data` is the `event.parts` object, `CD.partTracks pv` the `tracks` object of one
+event part and `CD.trackCount parts` the total number of course tracks over all parts. -/
+
+/-- no track selected and the event has no course track at all: refused -/
+theorem C12_refuse_no_track (data : J) (o : Opts) (ht : o.track = none)
+    (h : ∀ parts, eventParts data = some parts → trackCount parts = 0) :
+    ∃ e, CD.read data o = .error e :=
+  read_refuse_of_findTrack data o (fun parts hp => by
+    rw [ht]; exact findTrack_none_no_track parts (h parts hp))
+
+/-- no track selected and the event has two or more course tracks (in one part or in different
+    parts): refused -/
+theorem C12_refuse_two_tracks (data : J) (o : Opts) (ht : o.track = none)
+    (h : ∀ parts, eventParts data = some parts → 2 ≤ trackCount parts) :
+    ∃ e, CD.read data o = .error e :=
+  read_refuse_of_findTrack data o (fun parts hp => by
+    rw [ht]; exact findTrack_none_two_tracks parts (h parts hp))
+
+/-- a selected track id that no event part has: refused -/
+theorem C12_refuse_unknown_track (data : J) (o : Opts) (t : Nat) (ht : o.track = some t)
+    (h : ∀ parts, eventParts data = some parts →
+      ∀ kv ∈ parts, ∀ tr, partTracks kv.2 = some tr → ∀ tk ∈ tr, parseNat tk.1 ≠ some t) :
+    ∃ e, CD.read data o = .error e :=
+  read_refuse_of_findTrack data o (fun parts hp => by
+    rw [ht]; exact findTrack_some_absent parts t (h parts hp))
+
+/-- the same three refusals on `findTrack` itself -/
+theorem C12_findTrack_refusals (parts : List (String × J)) :
+    (trackCount parts = 0 → ∃ e, findTrack parts none = .error e) ∧
+    (2 ≤ trackCount parts → ∃ e, findTrack parts none = .error e) ∧
+    (∀ t, (∀ kv ∈ parts, ∀ tr, partTracks kv.2 = some tr → ∀ tk ∈ tr, parseNat tk.1 ≠ some t) →
+      ∃ e, findTrack parts (some t) = .error e) :=
+  ⟨findTrack_none_no_track parts, findTrack_none_two_tracks parts,
+   fun t h => findTrack_some_absent parts t h⟩
+
+section Examples
+private def exParts2 : List (String × J) :=
+  [("1", .obj [("tracks", .obj [("3", .obj [])])]), ("2", .obj [("tracks", .obj [("4", .obj [])])])]
+example : 2 ≤ trackCount exParts2 := by decide
+example : ∀ kv ∈ exParts2, ∀ tr, partTracks kv.2 = some tr → ∀ tk ∈ tr, parseNat tk.1 ≠ some 5 := by
+  decide
+example : trackCount [("1", .obj [("tracks", .obj [])])] = 0 := by decide
+end Examples
+
+/-! ## choices -/
+
+/-- **choices.** When a registration's course data parse, the track's `choices` array is a list
+    of u64 ids all known to `courseIndex`, and the stored choices are exactly the entries whose id
+    is a kept course, in order, each with penalty = its position in the ORIGINAL array
+    (`choiceEntry co (id, i) = some (c, i)` iff `courseIndex co id = some (some c)`). -/
+theorem C12_choices (reg : J) (trackId : Nat) (co : CoursesOut) (pc : PCData)
+    (h : participantCourseData reg trackId co = .ok pc) :
+    ∃ ids : List Nat, choicesArr reg trackId = some (ids.map (fun id => J.num (.pos id))) ∧
+      (∀ id ∈ ids, id ≤ J.U64_MAX ∧ courseIndex co id ≠ none) ∧
+      pc.choices = ids.zipIdx.filterMap (choiceEntry co) :=
+  pcd_choices reg trackId co pc h
+
+/-- **choices, pointwise.** `(c, i)` is stored iff position `i` of the original array holds the id
+    of kept course `c`; penalties are strictly increasing along the list. -/
+theorem C12_choices_mem (reg : J) (trackId : Nat) (co : CoursesOut) (pc : PCData)
+    (h : participantCourseData reg trackId co = .ok pc) :
+    ∃ ids : List Nat, choicesArr reg trackId = some (ids.map (fun id => J.num (.pos id))) ∧
+      (∀ c i, (c, i) ∈ pc.choices ↔ ∃ id, ids[i]? = some id ∧ courseIndex co id = some (some c)) ∧
+      pc.choices.Pairwise (fun a b => a.2 < b.2) :=
+  pcd_choices_mem reg trackId co pc h
+
+/-! ## courses -/
+
+/-- **courses.** All course entries parse; `co.courses` are the kept entries (`courseEntry`) stably
+    sorted by the padded number; `co.skipped` are the ids of the other entries (`courseSkipped`) in
+    document order; `co.numIgnored` counts the ignored cancelled ones. -/
+theorem C12_courses (cdata : List (String × J)) (trackId : Nat) (o : Opts) (co : CoursesOut)
+    (h : readCourses cdata trackId o = .ok co) :
+    (∀ kv ∈ cdata, CourseParses trackId o kv) ∧
+    co.courses = ((cdata.filterMap (courseEntry trackId o)).mergeSort keyLe).map (·.2) ∧
+    co.skipped = cdata.filterMap (courseSkipped trackId o) ∧
+    co.numIgnored = cdata.countP (courseIgnored trackId o) :=
+  readCourses_spec cdata trackId o co h
+
+/-- **courses, order.** The sorted entry list is a permutation of the kept entries, ordered by the
+    padded key, and stable with respect to document order. -/
+theorem C12_courses_sorted (cdata : List (String × J)) (trackId : Nat) (o : Opts) (co : CoursesOut)
+    (h : readCourses cdata trackId o = .ok co) :
+    ∃ S : List (String × Course), co.courses = S.map (·.2) ∧
+      S.Perm (cdata.filterMap (courseEntry trackId o)) ∧
+      S.Pairwise (fun a b => a.1 ≤ b.1) ∧
+      (∀ a b, a.1 ≤ b.1 → [a, b].Sublist (cdata.filterMap (courseEntry trackId o)) → [a, b].Sublist S) :=
+  readCourses_sorted cdata trackId o co h
+
+/-- **courses, kept entries.** A kept entry is a course whose segment of the track is `true` — or
+    `false` when cancelled courses are not ignored; it carries the export's id, `nr. shortname`,
+    the export's size limits with defaults `DEFAULT_MIN_SIZE`/`DEFAULT_MAX_SIZE`, and is sorted under
+    `sortKey nr`. -/
+theorem C12_course_entry (trackId : Nat) (o : Opts) (kv : String × J) (e : String × Course)
+    (h : courseEntry trackId o kv = some e) :
+    ∃ cid nr sn s f off, parseNat kv.1 = some cid ∧
+      (kv.2.get "nr").bind J.asStr = some nr ∧ (kv.2.get "shortname").bind J.asStr = some sn ∧
+      statusOfSeg (segView kv.2 trackId) = some s ∧ keptStatus o s = true ∧
+      roomFields kv.2 o = .ok (f, off) ∧
+      e = (sortKey nr, mkCourse cid (nr ++ ". " ++ sn)
+            (((kv.2.get "min_size").bind J.asU64).getD Const.DEFAULT_MIN_SIZE)
+            (((kv.2.get "max_size").bind J.asU64).getD Const.DEFAULT_MAX_SIZE) f off) ∧
+      e.2.numMin ≤ e.2.numMax :=
+  courseEntry_spec trackId o kv e h
+
+/-- **courses, skipped ids.** A skipped id is the id of a course not offered in the track, or
+    cancelled while cancelled courses are ignored. -/
+theorem C12_course_skipped (trackId : Nat) (o : Opts) (kv : String × J) (id : Nat)
+    (h : courseSkipped trackId o kv = some id) :
+    parseNat kv.1 = some id ∧
+      ∃ s, statusOfSeg (segView kv.2 trackId) = some s ∧ keptStatus o s = false :=
+  courseSkipped_spec trackId o kv id h
+
+/-- the ids `courseIndex` knows are exactly the keys of the `courses` object -/
+theorem C12_known_ids (cdata : List (String × J)) (trackId : Nat) (o : Opts) (co : CoursesOut)
+    (h : readCourses cdata trackId o = .ok co) (id : Nat) :
+    courseIndex co id ≠ none ↔ id ∈ cdata.filterMap (fun kv => parseNat kv.1) :=
+  courseIndex_known cdata trackId o co h id
+
+/-! ## registrations -/
+
+/-- **registrations, refinement.** A successful `readRegs` is simulated by the typed loop `RD.read`
+    on the typed views `toReg` of the registration entries (running index, (dbid, choices) of the
+    participants, per-course instructor lists, untouched course members), so `C12_loop` transfers. -/
+theorem C12_regs_refine (rdata : List (String × J)) (partId trackId : Nat) (td : List (String × J))
+    (co : CoursesOut) (o : Opts) (s : RState)
+    (h : readRegs rdata partId trackId td co o = .ok s) :
+    Sim co.courses s (RD.read o.ignoreAssigned (rdata.map (toReg partId trackId co))) :=
+  readRegs_refines rdata partId trackId td co o s h
+
+/-- **registrations.** With `K` the kept registrations in document order: the running index ends
+    at `K.length`; participants are `K` (id, choices); the loop leaves id / name / size limits /
+    room data of the courses alone; the instructor indices pushed into course `ci` are exactly
+    the positions in `K` of the registrations whose `course_instructor` resolves to `ci`. -/
+theorem C12_regs (rdata : List (String × J)) (partId trackId : Nat) (td : List (String × J))
+    (co : CoursesOut) (o : Opts) (s : RState)
+    (h : readRegs rdata partId trackId td co o = .ok s) :
+    let K := RD.kept o.ignoreAssigned (rdata.map (toReg partId trackId co))
+    s.i = K.length ∧
+    s.parts.map (fun p => (p.dbid, p.choices)) = K.map (fun r => (r.id, r.choices)) ∧
+    s.courses.map courseCore = co.courses.map courseCore ∧
+    ∀ (ci : Nat) (c : Course), s.courses[ci]? = some c →
+      ∃ (c0 : Course) (pushed : List Nat), co.courses[ci]? = some c0 ∧
+        c.instructors = c0.instructors ++ pushed ∧
+        ∀ k, k ∈ pushed ↔ ∃ r : RD.Reg, K[k]? = some r ∧ r.instructed = some ci :=
+  readRegs_spec rdata partId trackId td co o s h
+
+/-- **participants.** They are exactly the kept registration entries, in document order, with the
+    registration id, the name and the choices the per-registration parsers produce. -/
+theorem C12_participants (rdata : List (String × J)) (partId trackId : Nat) (td : List (String × J))
+    (co : CoursesOut) (o : Opts) (s : RState)
+    (h : readRegs rdata partId trackId td co o = .ok s) :
+    s.parts = (rdata.filter (fun kv => RD.keep o.ignoreAssigned (toReg partId trackId co kv))).map
+      (partOf partId trackId co) :=
+  readRegs_parts rdata partId trackId td co o s h
+
+/-- "kept" on the export: status participant in the track's part, course data parse, not ignored
+    as already assigned, and a valid choice or instructing a kept course -/
+theorem C12_kept_iff (ia : Bool) (partId trackId : Nat) (co : CoursesOut) (kv : String × J) :
+    RD.keep ia (toReg partId trackId co kv) = true ↔
+      ∃ name pc, participantBase kv.2 partId = .ok (true, name) ∧
+        participantCourseData kv.2 trackId co = .ok pc ∧
+        ¬ (ia = true ∧ pc.assigned.isSome = true) ∧
+        (pc.choices ≠ [] ∨ pc.instructed.isSome = true) :=
+  keep_toReg_iff ia partId trackId co kv
+
+/-- **ignored registrations.** With `regs` the typed views: the loop adds to `invInstr` / `invAtt`
+    of course `ci` the number of ignored (already assigned, `ignoreAssigned`) registrations assigned
+    to `ci` that do / do not instruct it (`invisibleIn`), and `numIgnored` counts them — the
+    quantities C11's arithmetic is about. -/
+theorem C12_ignored (rdata : List (String × J)) (partId trackId : Nat) (td : List (String × J))
+    (co : CoursesOut) (o : Opts) (s : RState)
+    (h : readRegs rdata partId trackId td co o = .ok s) :
+    let regs := rdata.map (toReg partId trackId co)
+    (∀ ci, (s.courses[ci]?).map invOf = (co.courses[ci]?).map (fun c =>
+        ((invOf c).1 + regs.countP (invisibleIn o.ignoreAssigned ci true),
+         (invOf c).2 + regs.countP (invisibleIn o.ignoreAssigned ci false)))) ∧
+    s.numIgnored = regs.countP (isIgnored o.ignoreAssigned) :=
+  readRegs_invisible rdata partId trackId td co o s h
+
+/-! ## the whole reader -/
+
+/-- **C12, assembled**: see `CD.read_spec` for the reading of each clause. -/
+theorem C12_read (data : J) (o : Opts) (parts : List Part) (courses : List Course) (amb : Ambience)
+    (h : CD.read data o = .ok (parts, courses, amb)) :
+    ∃ evparts partId trackId td cdata rdata co,
+      eventParts data = some evparts ∧ findTrack evparts o.track = .ok (partId, trackId, td) ∧
+      coursesOf data = some cdata ∧ readCourses cdata trackId o = .ok co ∧
+      regsOf data = some rdata ∧ amb.trackId = trackId ∧
+      parts = (rdata.filter (fun kv => RD.keep o.ignoreAssigned (toReg partId trackId co kv))).map
+        (partOf partId trackId co) ∧
+      courses.map (fun c => (c.dbid, c.name, c.factor, c.offset)) =
+        co.courses.map (fun c => (c.dbid, c.name, c.factor, c.offset)) ∧
+      ∀ (ci : Nat) (c : Course), courses[ci]? = some c → ∀ k, k ∈ c.instructors ↔
+        ∃ r : RD.Reg, (RD.kept o.ignoreAssigned (rdata.map (toReg partId trackId co)))[k]? = some r ∧
+          r.instructed = some ci :=
+  CD.read_spec data o parts courses amb h
+
 end Props
+
+#print axioms Props.C12_refuse_no_track
+#print axioms Props.C12_refuse_two_tracks
+#print axioms Props.C12_refuse_unknown_track
+#print axioms Props.C12_choices
+#print axioms Props.C12_choices_mem
+#print axioms Props.C12_courses
+#print axioms Props.C12_courses_sorted
+#print axioms Props.C12_course_entry
+#print axioms Props.C12_regs
+#print axioms Props.C12_participants
+#print axioms Props.C12_ignored
+#print axioms Props.C12_read
